@@ -669,13 +669,13 @@ func run(c *core.C) {
 			Sc: &Sc{Root: rootConn, Owners: []int{0}, Orders: []int{0, 1}, Encs: []int{0}, MaxRegs: regs, MaxSends: 1, Timeouts: []int{1}, Macro: true, Attacks: true}},
 		{Name: "handshake-race/encodings", Share: 0.25, Cfg: ksim.Config{MaxDepth: 10 + d},
 			Sc: &Sc{Root: rootConn, Owners: []int{0}, Orders: []int{0}, Encs: []int{0, 1}, MaxRegs: regs, MaxSends: 1, Timeouts: []int{1}, Macro: true}},
-		{Name: "handshake/two-owners+direct-init", Share: 0.3, Cfg: ksim.Config{MaxDepth: 9 + d},
-			Sc: &Sc{Root: rootConn, Owners: []int{0, 1}, Orders: []int{0}, Encs: []int{0}, MaxRegs: regs, MaxSends: 2, Timeouts: []int{0}, Macro: true, DirectInit: true}},
+		{Name: "handshake/two-owners+direct-init", Share: 0.3, Cfg: ksim.Config{MaxDepth: 9 + d/2},
+			Sc: &Sc{Root: rootConn, Owners: []int{0, 1}, Orders: []int{0}, Encs: []int{0}, MaxRegs: 2, MaxSends: 2, Timeouts: []int{0}, Macro: true, DirectInit: true}},
 		{Name: "reopen-after-timeout", Share: 0.4, Cfg: ksim.Config{MaxDepth: 9 + d},
 			Sc: &Sc{Root: rootClosed, Owners: []int{0}, Orders: []int{0, 1}, Encs: []int{0, 1}, MaxRegs: regs, MaxSends: 1, Timeouts: []int{1}, Macro: true, DirectInit: true, Attacks: true}},
 		{Name: "open-channels/packets", Share: 0.6, Cfg: ksim.Config{MaxDepth: 8 + d},
 			Sc: &Sc{Root: rootOpen, Owners: []int{0, 1}, Orders: []int{0, 1}, Encs: []int{0}, MaxRegs: 1, MaxSends: 2, Timeouts: []int{0, 1}, Macro: true, Attacks: true}},
-		{Name: "micro/handshake+timeout", Cfg: ksim.Config{MaxDepth: 9 + d},
+		{Name: "micro/handshake+timeout", Cfg: ksim.Config{MaxDepth: 9 + d/2},
 			Sc: &Sc{Root: rootConn, Owners: []int{0}, Orders: []int{0}, Encs: []int{0}, MaxRegs: regs, MaxSends: 1, Timeouts: []int{1}, MaxCommits: 3, DupTry: true}},
 	}
 	ksim.RunParts(c, parts, [][]ksim.Op{
